@@ -1,6 +1,7 @@
 (* C13 -- tracks expire exactly when their age reaches the TTL.
    Statements only; proofs live in Proofs/TrackerCbProofs.v (and Proofs/TrackerProofs.v).  The model is pyais/tracker.py
-   after `fix: expire stale tracks in unordered trackers even when a newer track is still alive`, in its GENERAL form
+   after `fix: expire stale tracks in unordered trackers even when a newer track is still alive` and
+   `fix: keep oldest_timestamp a lower bound of the tracks when a subscriber callback raises`, in its GENERAL form
    `trkc_step` (Model/Tracker.v): the subscriber callbacks may raise.
 
    trk_env V                   what the callbacks do during ONE operation (`e_cb env cb event track` = returns / raises e;
@@ -9,13 +10,15 @@
                                back into the tracker are outside the model.
    env_ok env                  iterating the set visits exactly its elements (all that is assumed of `e_iter`).
    reachable_any nattrs st     st is the state after ANY history (updates with arbitrary, also out-of-order, timestamps,
-                               pops, cleanups at arbitrary clock values, callback registration), in either mode, with any
-                               TTL, WHATEVER the subscribers did -- including operations left by their exceptions.
-   reachable_c nattrs st       the same, as long as no exception of a subscriber has left update() or cleanup()
-                               (`step_ok`: each update()/cleanup() so far returned, or raised before its first propagate
-                               call = a rejected update).  A KeyError raised by a DELETED subscriber never leaves
-                               pop_track (`except KeyError: return None`), so histories with such subscribers are covered
-                               in full; pop_track may raise anything.
+                               pops, cleanups at arbitrary clock values, callback registration, assignments of a new TTL
+                               to `tracker.ttl_in_seconds` (OpSetTtl), `tracker.stream_is_ordered = False` (OpUnordered)),
+                               calls of the public insert_or_update() (OpInsertOrUpdate: no ordering check, no cleanup();
+                               in ORDERED mode with a timestamp that is not older than a track -- `op_ok`, the caller's
+                               obligation on that route, without which the unchanged code leaves the table unsorted),
+                               starting in either mode with any TTL, WHATEVER the subscribers did -- including operations
+                               left by their exceptions (each operation with an environment that satisfies env_ok).
+   t_ttl st = Some T           T is the TTL in force when the operation in question starts (cleanup() reads
+                               `self.ttl_in_seconds` afresh on every call; there is no derived deadline that could go stale).
    rc_exn res = None           the operation returned normally.
    sp_ttl_ok T now remaining removed (Spec/TrackerSpec.v): every remaining track has now - last_updated < T and every
                                track handed to a DELETED callback during the operation had T <= now - last_updated. *)
@@ -27,9 +30,10 @@ Open Scope Z_scope.
 (* After every cleanup()/update() that RETURNS, performed at clock value `now`, in both modes, for every TTL (also 0 and
    negative ones), whatever the order in which stale and fresh tracks were inserted and whatever the subscribers do
    during the operation (return, raise KeyError from a DELETED callback -- swallowed by pop_track after the track was
-   deleted --; anything that escapes makes the operation raise, and then it did not complete). *)
+   deleted --; anything that escapes makes the operation raise, and then it did not complete) -- from EVERY state, also
+   one that an earlier operation left behind when a subscriber's exception ended it. *)
 Theorem C13_expiry_exact : forall (V : Type) (nattrs : nat) (env : trk_env V) (st : trk_tracker V) (op : trk_op V) (now T : Z),
-  reachable_c nattrs st -> env_ok env -> t_ttl st = Some T ->
+  reachable_any nattrs st -> env_ok env -> t_ttl st = Some T ->
   (op = OpCleanup now \/ exists msg ts, op = OpUpdate now msg ts) ->
   let res := trkc_step nattrs env st op in
   rc_exn res = None ->
@@ -37,15 +41,15 @@ Theorem C13_expiry_exact : forall (V : Type) (nattrs : nat) (env : trk_env V) (s
 Proof. exact (fun V => @expiry_exact_c V). Qed.
 Print Assumptions C13_expiry_exact.
 
-(* What holds of EVERY update()/cleanup(), also one that is left by the exception of a subscriber, from EVERY state:
-   no track younger than the TTL is removed by expiry (the second half of C13), and the state left behind satisfies the
-   structural invariants (one entry per MMSI, keyed by the track's own MMSI, ordered mode: sorted by last_updated, full
-   attribute lists).  What an aborted operation does NOT preserve is the cache invariant -- see C13_refuted_* below. *)
+(* What holds of EVERY update()/cleanup(), also one that is left by the exception of a subscriber: no track younger
+   than the TTL is removed by expiry (the second half of C13), and the state left behind satisfies the invariants -- one
+   entry per MMSI, keyed by the track's own MMSI, ordered mode: sorted by last_updated, full attribute lists, and the
+   cached oldest_timestamp is a lower bound of every last_updated. *)
 Theorem C13_never_removes_fresh : forall (V : Type) (nattrs : nat) (env : trk_env V) (st : trk_tracker V) (op : trk_op V) (now T : Z),
   reachable_any nattrs st -> env_ok env -> t_ttl st = Some T ->
   (op = OpCleanup now \/ exists msg ts, op = OpUpdate now msg ts) ->
   let res := trkc_step nattrs env st op in
-  Forall (fun lu => T <= now - lu) (deleted_lus (rc_calls res)) /\ sinv nattrs (rc_state res).
+  Forall (fun lu => T <= now - lu) (deleted_lus (rc_calls res)) /\ inv nattrs (rc_state res).
 Proof. exact (fun V => @expiry_never_removes_fresh V). Qed.
 Print Assumptions C13_never_removes_fresh.
 
@@ -58,52 +62,64 @@ Theorem C13_no_ttl_no_expiry : forall (V : Type) (nattrs : nat) (env : trk_env V
 Proof. exact (fun V => @no_ttl_no_expiry_c V). Qed.
 Print Assumptions C13_no_ttl_no_expiry.
 
-(* The TTL and the mode are fixed at construction: no operation changes them. *)
+(* The TTL and the mode change only when the history says so: sp_ttl_after ttl op = the TTL assigned if op is OpSetTtl,
+   ttl otherwise; sp_mode ordered op = false if op is OpUnordered, ordered otherwise (Spec/TrackerSpec.v). *)
 Theorem C13_configuration_constant : forall (V : Type) (nattrs : nat) (env : trk_env V) (st : trk_tracker V) (op : trk_op V),
   reachable_any nattrs st ->
-  t_ordered (rc_state (trkc_step nattrs env st op)) = t_ordered st /\ t_ttl (rc_state (trkc_step nattrs env st op)) = t_ttl st.
+  t_ordered (rc_state (trkc_step nattrs env st op)) = sp_mode (t_ordered st) (abs_op op) /\
+  t_ttl (rc_state (trkc_step nattrs env st op)) = sp_ttl_after (t_ttl st) (abs_op op).
 Proof. exact (fun V => @step_cfg_reachable_c V). Qed.
 Print Assumptions C13_configuration_constant.
 
-(* The invariants behind it.  As long as no subscriber's exception has left update()/cleanup(): one entry per MMSI,
-   keyed by the track's own MMSI; the cached oldest_timestamp is a lower bound of every last_updated; in ordered mode
-   the table is sorted by last_updated.  In every state whatsoever: all of these except the cache. *)
-Theorem C13_invariants : forall (V : Type) (nattrs : nat) (st : trk_tracker V), reachable_c nattrs st -> inv nattrs st.
-Proof. exact (fun V => @reachable_c_inv V). Qed.
+(* ... and the two configuration operations do nothing else: no call, no delivery, the table and the cache untouched. *)
+Theorem C13_configuration_operations : forall (V : Type) (nattrs : nat) (env : trk_env V) (st : trk_tracker V) (ttl : option Z),
+  trkc_step nattrs env st (OpSetTtl ttl) = mkCResult (with_ttl st ttl) [] [] None None /\
+  trkc_step nattrs env st OpUnordered = mkCResult (with_ordered st false) [] [] None None.
+Proof. exact (fun V nattrs env st ttl => conj eq_refl eq_refl). Qed.
+Print Assumptions C13_configuration_operations.
+
+(* The invariants behind it, in EVERY state: one entry per MMSI, keyed by the track's own MMSI; the cached
+   oldest_timestamp is a lower bound of every last_updated; in ordered mode the table is sorted by last_updated. *)
+Theorem C13_invariants : forall (V : Type) (nattrs : nat) (st : trk_tracker V), reachable_any nattrs st -> inv nattrs st.
+Proof. exact (fun V => @reachable_any_inv V). Qed.
 Print Assumptions C13_invariants.
 
-Theorem C13_structural_invariants : forall (V : Type) (nattrs : nat) (st : trk_tracker V), reachable_any nattrs st -> sinv nattrs st.
-Proof. exact (fun V => @reachable_any_sinv V). Qed.
-Print Assumptions C13_structural_invariants.
+(* THE REPAIRED DEFECT.  With the bodies of insert_or_update / cleanup before
+   `fix: keep oldest_timestamp a lower bound of the tracks when a subscriber callback raises` (Model/Tracker.v
+   `trkc_step_unrepaired`) the cache invariant -- and with it C13_expiry_exact -- failed once the exception of a subscriber
+   had left update() or cleanup(); the same histories on the repaired bodies behave. *)
 
-(* THE FINDING.  C13_expiry_exact without the guard -- over all states, including those left behind by an operation that
-   a subscriber's exception ended -- is false of pyais: *)
-Definition C13_statement_any_state : Prop :=
-  forall (V : Type) (nattrs : nat) (env : trk_env V) (st : trk_tracker V) (op : trk_op V) (now T : Z),
-    reachable_any nattrs st -> env_ok env -> t_ttl st = Some T ->
-    (op = OpCleanup now \/ exists msg ts, op = OpUpdate now msg ts) ->
-    rc_exn (trkc_step nattrs env st op) = None ->
-    sp_ttl_ok T now (map (@tr_lu V) (trk_tracks (rc_state (trkc_step nattrs env st op))))
-              (deleted_lus (rc_calls (trkc_step nattrs env st op))).
+(* witness: a CREATED subscriber raises (KeyError) for the first vessel.  Unrepaired: update() raised after inserting the
+   track and before `__set_oldest_timestamp`, oldest_timestamp stayed None and cleanup() 13 ticks later (ttl 12) returned
+   at once, the track (age 13) remained.  Repaired: the cache is 0, the track expires. *)
+Theorem C13_unrepaired_refuted_after_callback_exception :
+  let su := fst (trkc_run_unrepaired 1 (trk_init (Some 12) false) witness_created) in
+  let ru := trkc_step_unrepaired 1 trk_env_quiet su (OpCleanup 13) in
+  let sr := fst (trkc_run 1 (trk_init (Some 12) false) witness_created) in
+  let rr := trkc_step 1 trk_env_quiet sr (OpCleanup 13) in
+  (t_oldest su = None /\ rc_exn ru = None /\
+   ~ sp_ttl_ok 12 13 (map (@tr_lu Z) (trk_tracks (rc_state ru))) (deleted_lus (rc_calls ru))) /\
+  (t_oldest sr = Some 0 /\ rc_exn rr = None /\ trk_tracks (rc_state rr) = [] /\ deleted_lus (rc_calls rr) = [0]).
+Proof. exact unrepaired_refuted_after_callback_exception. Qed.
+Print Assumptions C13_unrepaired_refuted_after_callback_exception.
 
-(* witness: a CREATED subscriber raises (KeyError) for the first vessel, update() raises after inserting the track and
-   before `__set_oldest_timestamp`; oldest_timestamp stays None and cleanup() 13 ticks later (ttl 12) returns at once *)
-Theorem C13_refuted_after_callback_exception : ~ C13_statement_any_state.
-Proof. exact expiry_refuted_after_callback_exception. Qed.
-Print Assumptions C13_refuted_after_callback_exception.
-
-(* witness: a DELETED subscriber raises ValueError; cleanup() at 12 has advanced oldest_timestamp to 8, pops vessel 111,
-   is left by the exception and keeps vessel 222 (age 12); cleanup() at 13 returns early: 222 (age 13) remains *)
-Theorem C13_refuted_after_aborted_cleanup :
-  let st := fst (trkc_run 1 (trk_init (Some 12) false) witness_deleted) in
-  let res := trkc_step 1 trk_env_quiet st (OpCleanup 13) in
-  reachable_any 1 st /\ rc_exn res = None /\
-  ~ sp_ttl_ok 12 13 (map (@tr_lu Z) (trk_tracks (rc_state res))) (deleted_lus (rc_calls res)).
-Proof. exact expiry_refuted_after_aborted_cleanup. Qed.
-Print Assumptions C13_refuted_after_aborted_cleanup.
+(* witness: a DELETED subscriber raises ValueError.  Unrepaired: cleanup() at 12 had advanced oldest_timestamp to 8,
+   popped vessel 111, was left by the exception and kept vessel 222 (age 12); cleanup() at 13 returned early: 222 (age 13)
+   remained.  Repaired: the aborted cleanup() leaves the cache at 0, cleanup() at 13 removes 222. *)
+Theorem C13_unrepaired_refuted_after_aborted_cleanup :
+  let su := fst (trkc_run_unrepaired 1 (trk_init (Some 12) false) witness_deleted) in
+  let ru := trkc_step_unrepaired 1 trk_env_quiet su (OpCleanup 13) in
+  let sr := fst (trkc_run 1 (trk_init (Some 12) false) witness_deleted) in
+  let rr := trkc_step 1 trk_env_quiet sr (OpCleanup 13) in
+  (t_oldest su = Some 8 /\ rc_exn ru = None /\
+   ~ sp_ttl_ok 12 13 (map (@tr_lu Z) (trk_tracks (rc_state ru))) (deleted_lus (rc_calls ru))) /\
+  (t_oldest sr = Some 0 /\ rc_exn rr = None /\ map (@tr_mmsi Z) (trk_tracks (rc_state rr)) = [333] /\
+   deleted_lus (rc_calls rr) = [0]).
+Proof. exact unrepaired_refuted_after_aborted_cleanup. Qed.
+Print Assumptions C13_unrepaired_refuted_after_aborted_cleanup.
 
 (* The general model with subscribers that return normally IS the model `trk_step` that C12 (Props/C12.v) is stated
-   about, and every state of that model is one of the states C13_expiry_exact speaks about. *)
+   about, and every state of that model is one of the states the theorems of this file speak about. *)
 Theorem C13_quiet_subscribers_give_trk_step : forall (V : Type) (nattrs : nat) (st : trk_tracker V) (op : trk_op V),
   rc_state (trkc_step nattrs trk_env_quiet st op) = r_state (trk_step nattrs st op) /\
   rc_calls (trkc_step nattrs trk_env_quiet st op) = r_calls (trk_step nattrs st op) /\
@@ -114,8 +130,8 @@ Proof. exact (fun V => @trkc_step_quiet V). Qed.
 Print Assumptions C13_quiet_subscribers_give_trk_step.
 
 Theorem C13_quiet_states_covered : forall (V : Type) (nattrs : nat) (st : trk_tracker V),
-  reachable nattrs st -> reachable_c nattrs st.
-Proof. exact (fun V => @reachable_old_c V). Qed.
+  reachable nattrs st -> reachable_any nattrs st.
+Proof. exact (fun V => @reachable_old_any V). Qed.
 Print Assumptions C13_quiet_states_covered.
 
 (* The environments the check's driver builds from its line protocol (rules + set order read off the implementation)
@@ -165,7 +181,8 @@ Proof. intros []; vm_compute; repeat split. Qed.
 
 (* non-vacuity 3: three expired tracks and a DELETED subscriber that raises ValueError for vessel 222 only: cleanup()
    pops 111, pops 222 (deleted, then the exception escapes), never reaches 333; the operation raises ValueError and
-   leaves 333 behind -- C13_never_removes_fresh applies, C13_expiry_exact does not (the operation did not complete) *)
+   leaves 333 behind -- C13_never_removes_fresh applies, C13_expiry_exact does not (the operation did not complete); the
+   cache still is 0 (`self.oldest_timestamp = oldest` was not reached), so the next cleanup() completes the job *)
 Example C13_nonvacuous_aborted_cleanup :
   let en := @trk_env_of Z [(7, DELETED, Some 222, Py ValueError)] [] in
   let h := [(en, OpAttach DELETED 7); (en, OpUpdate 0 (mkMsg 111 [MPresent (Some 1)]) (Some 0));
@@ -173,5 +190,26 @@ Example C13_nonvacuous_aborted_cleanup :
   let st := fst (trkc_run 1 (trk_init (Some 12) false) h) in
   let res := trkc_step 1 en st (OpCleanup 30) in
   rc_exn res = Some (Py ValueError) /\ map (@tr_mmsi Z) (trk_tracks (rc_state res)) = [333] /\
-  deleted_lus (rc_calls res) = [0; 1].
+  deleted_lus (rc_calls res) = [0; 1] /\ t_oldest (rc_state res) = Some 0 /\
+  trk_tracks (rc_state (trkc_step 1 en (rc_state res) (OpCleanup 30))) = [].
+Proof. vm_compute. repeat split. Qed.
+
+(* non-vacuity 4: the TTL is changed during the history.  ttl 40: three vessels at 0, 4, 8; at t=20 nothing is due.
+   `tracker.ttl_in_seconds = 12` (OpSetTtl): cleanup() at the same instant t=20 removes 111 (age 20) and 222 (age 16)
+   and keeps 333 (age 11).  Then `tracker.ttl_in_seconds = None`: nothing expires any more, however late. *)
+Example C13_nonvacuous_ttl_changed :
+  let q := @trk_env_quiet Z in
+  let h := [(q, OpUpdate 8 (mkMsg 111 [MPresent (Some 1)]) (Some 0));
+            (q, OpUpdate 8 (mkMsg 222 [MPresent (Some 2)]) (Some 4));
+            (q, OpUpdate 8 (mkMsg 333 [MPresent (Some 3)]) (Some 9));
+            (q, OpCleanup 20)] in
+  let st := fst (trkc_run 1 (trk_init (Some 40) false) h) in
+  let st1 := rc_state (trkc_step 1 q st (OpSetTtl (Some 12))) in
+  let res := trkc_step 1 q st1 (OpCleanup 20) in
+  let st2 := rc_state (trkc_step 1 q (rc_state res) (OpSetTtl None)) in
+  let res2 := trkc_step 1 q st2 (OpCleanup 1000) in
+  map (@tr_mmsi Z) (trk_tracks st) = [111; 222; 333] /\ t_ttl st1 = Some 12 /\
+  map (@tr_mmsi Z) (trk_tracks (rc_state res)) = [333] /\ deleted_lus (rc_calls res) = [0; 4] /\
+  sp_ttl_okb 12 20 (map (@tr_lu Z) (trk_tracks (rc_state res))) (deleted_lus (rc_calls res)) = true /\
+  map (@tr_mmsi Z) (trk_tracks (rc_state res2)) = [333] /\ rc_calls res2 = [].
 Proof. vm_compute. repeat split. Qed.
